@@ -71,6 +71,14 @@ SPEC_NAMES = {
     "tokens_have_upgrade",
     "has_header",
     "key_pos",
+    "starts_with_seq",
+    "local",
+    "after_gap",
+    "n_after_gap",
+    "suffix_after",
+    "urlunsplit_",
+    "latin1",
+    "is_ascii",
 }
 
 
@@ -259,7 +267,8 @@ class SpecMixin:
 
         a = self.ev(e.args[0], fr)
         b = self.ev(e.args[1], fr)
-        return mk_bool(z3.PrefixOf(str_to_z3(b), str_to_z3(a)))
+        be = b if isinstance(b, z3.ExprRef) else str_to_z3(b)
+        return mk_bool(z3.PrefixOf(be, str_to_z3(a)))
 
     def sp_str_contains(self, e, fr):
         from .sym import str_to_z3
@@ -497,3 +506,84 @@ class SpecMixin:
         lst = self.ev(e.args[0], fr)
         k = z3_of_int(self.ev(e.args[1], fr))
         return mk_int(lst.pos(k))
+
+    def sp_starts_with_seq(self, e, fr):
+        """starts_with_seq(a, b): list b is a prefix of list a"""
+        a = ops.to_seq(self.ctx, self.ev(e.args[0], fr))
+        bv = self.ev(e.args[1], fr)
+        if isinstance(bv, PList) and bv.sym is None and not bv.items:
+            return True
+        b = ops.to_seq(self.ctx, bv, like=a)
+        return mk_bool(z3.PrefixOf(b.e, a.e))
+
+    def sp_local(self, e, fr):
+        """local('name'): value of a local variable of the unit's function when it returned"""
+        from .interp import MaybeUnbound
+
+        name = e.args[0].value
+        ll = getattr(self, "last_locals", {}).get(getattr(self, "unit_qual", ""), {})
+        if name not in ll:
+            from .interp import BOTTOM
+
+            return BOTTOM  # not assigned on this path (e.g. an early return): the conjunct is false
+        v = ll[name]
+        if isinstance(v, MaybeUnbound):
+            v = v.value
+        return v
+
+    def _after_gap(self, name):
+        entries = self.traces.get(name, [])
+        for k in range(len(entries) - 1, -1, -1):
+            if isinstance(entries[k], TraceGap):
+                return entries[k + 1:]
+        return entries
+
+    def sp_after_gap(self, e, fr):
+        """entries of a trace recorded after the last loop gap (i.e. in the final iteration / after
+        the loop): for loops whose earlier iterations provably record nothing"""
+        return PList(list(self._after_gap(e.args[0].value)))
+
+    def sp_n_after_gap(self, e, fr):
+        return len(self._after_gap(e.args[0].value))
+
+    def sp_suffix_after(self, e, fr):
+        """suffix_after(s, prefix) == s[len(prefix):]"""
+        from .sym import kind_of_strlike, mk_str, str_to_z3
+
+        sv = self.ev(e.args[0], fr)
+        pv = self.ev(e.args[1], fr)
+        se, pe = str_to_z3(sv), str_to_z3(pv) if not isinstance(pv, z3.ExprRef) else pv
+        return mk_str(z3.SubString(se, z3.Length(pe), z3.Length(se) - z3.Length(pe)), kind_of_strlike(sv) or "str")
+
+    def sp_urlunsplit_(self, e, fr):
+        from .models import f_urlunsplit
+        from .sym import mk_str, str_to_z3
+
+        parts = self.ev(e.args[0], fr)
+        vals = []
+        for p in parts:
+            if isinstance(p, SymOpt):
+                p = p.value
+            if type(p).__name__ == "Bottom":
+                return p
+            vals.append(str_to_z3(p))
+        return mk_str(f_urlunsplit(*vals), "str")
+
+    def sp_latin1(self, e, fr):
+        """latin1(b): the str with the same code points (bytes.decode('latin-1'); for ASCII data this
+        is also what .decode() gives)"""
+        from .sym import mk_str, str_to_z3
+
+        return mk_str(str_to_z3(self.ev(e.args[0], fr)), "str")
+
+    def sp_is_ascii(self, e, fr):
+        from .sym import s_ascii_ok, str_to_z3
+
+        v = self.ev(e.args[0], fr)
+        if not is_sym(v):
+            try:
+                (v if isinstance(v, bytes) else v.encode("latin-1")).decode("ascii")
+                return True
+            except Exception:
+                return False
+        return mk_bool(s_ascii_ok(str_to_z3(v)))
